@@ -319,6 +319,15 @@ def main(tier):
         ck.report("C06:translator-output", "Generated/RvSem.lean does not compile", "proof-obligation", out[-2000:], failing_input_found=False)
         return ck.finish("none: driver not built")
     broken = ck.build_and_audit(["Amoco.Props.C06"])
+    if tier != "quick" and not broken:
+        # independent kernel re-check of the compiled property modules
+        import subprocess
+        p = subprocess.run(["lake", "env", "leanchecker", "Amoco.Props.C06", "Amoco.Proofs.Rv", "Amoco.Model.SemDsl",
+                            "Amoco.Model.RiscvRef", "Amoco.Model.Flags", "Generated.RvSem"], cwd=LEAN, stdout=subprocess.PIPE,
+                           stderr=subprocess.STDOUT, text=True, timeout=3000)
+        ck.oblige("leanchecker (kernel replay of Props.C06 and its models)", p.returncode == 0, p.stdout[-1000:])
+        if p.returncode != 0:
+            broken.append("leanchecker: " + p.stdout[-1000:])
     drv = Driver("drv_rv")
     riscv_part(ck, drv, tier, corr_broken, machinery)
     import rv_x86
